@@ -292,8 +292,10 @@ theorem vargmin_spec (sqrt : Rat → Rat) (xs : List (Option Rat)) : GenAgg.varg
 /-- all eighteen functions were found and translated (an unparsed one has no `run`, which breaks
 the theorems above; one that disappears breaks this) -/
 theorem functions_present :
-    GenAgg.functions = ["vsum", "vmean", "vmean_var", "vvar", "vstd", "vskew", "vmax", "vmin", "count_none",
-      "vcov", "vcorr_pearson", "count_valid", "vfirst", "vlast", "vcount_value", "vargmax", "vargmin", "vkurt"] := rfl
+    ∀ n ∈ ["vsum", "vmean", "vmean_var", "vvar", "vstd", "vskew", "vmax", "vmin", "count_none",
+      "vcov", "vcorr_pearson", "count_valid", "vfirst", "vlast", "vcount_value", "vargmax", "vargmin", "vkurt"],
+      n ∈ GenAgg.functions := by
+  simp [GenAgg.functions]
 
 /-! ## the plain trait `AggBasic` (null-free items), regenerated -/
 
